@@ -471,6 +471,26 @@ pub fn run_c12(ctx: &Ctx) -> i32 {
 // C13
 // ---------------------------------------------------------------------------------------------
 
+/// Let a finished world drain its outgoing DATAGRAM queues: keep running as long as the queues keep
+/// shrinking (slow worlds - minimum windows, pacing caps - take their time), up to an hour of
+/// virtual time. What is left when a whole minute passes without a single datagram leaving is stuck.
+fn drain_dgram_queues(w: &mut crate::world::World) {
+    let queued = |w: &crate::world::World| -> usize { w.eps.iter().flat_map(|e| e.conns.values()).filter(|c| !c.c.is_closed()).map(|c| c.c.verif_probe().dgram_outgoing.0).sum() };
+    let mut last = queued(w);
+    for _ in 0..60 {
+        if last == 0 {
+            break;
+        }
+        let until = w.now + 60_000_000_000;
+        let _ = w.run(20_000, until, |_| false);
+        let now_q = queued(w);
+        if now_q >= last {
+            break;
+        }
+        last = now_q;
+    }
+}
+
 fn c13_case(seed: u64, trace: bool) -> CaseOut {
     c13_case_with(seed, trace, false)
 }
@@ -532,15 +552,14 @@ fn c13_case_with(seed: u64, trace: bool, padded: bool) -> CaseOut {
     // nothing stays queued for good: once the world has calmed down the outgoing DATAGRAM queues of
     // the surviving connections are empty
     if !any_lost(&ran.w) && matches!(ran.end, RunEnd::Done) && !padded {
-        let until = ran.w.now + 120_000_000_000;
-        let _ = ran.w.run(20_000, until, |_| false);
+        drain_dgram_queues(&mut ran.w);
         if !any_lost(&ran.w) {
             for (ei, e) in ran.w.eps.iter().enumerate() {
                 for (ch, c) in &e.conns {
                     ran.w.mon.cnt.inc("c13.dgram_queue_checks");
                     let q = c.c.verif_probe().dgram_outgoing;
                     if q.0 > 0 && !c.c.is_closed() {
-                        ran.w.mon.viol.push(crate::app::Violation { prop: "C13", msg: format!("conn {ei}/{ch}: {} DATAGRAMs ({} bytes) still queued 120 s after the workload ended, current MTU {} | path MTU profile {:?} | {}", q.0, q.1, c.c.current_mtu(), h.net.mtu_schedule, h.summary()) });
+                        ran.w.mon.viol.push(crate::app::Violation { prop: "C13", msg: format!("conn {ei}/{ch}: {} DATAGRAMs ({} bytes) still queued and not one has left in the last minute, long after the workload ended; current MTU {} | path MTU profile {:?} | {}", q.0, q.1, c.c.current_mtu(), h.net.mtu_schedule, h.summary()) });
                     }
                 }
             }
@@ -669,6 +688,10 @@ fn c16_case(seed: u64, trace: bool) -> CaseOut {
     // let queued datagrams drain, then read whatever the non-reading receivers still hold
     let limit = ran.w.now + 5_000_000_000;
     let _ = ran.w.run(3_000, limit, |_| false);
+    let black_hole_possible = !any_lost(&ran.w) && matches!(ran.end, RunEnd::Done);
+    if black_hole_possible {
+        drain_dgram_queues(&mut ran.w);
+    }
     // a sender that was told Blocked is told DatagramsUnblocked once there is room again
     if !any_lost(&ran.w) {
         let mut msgs = vec![];
@@ -676,6 +699,11 @@ fn c16_case(seed: u64, trace: bool) -> CaseOut {
             for (ch, c) in &e.conns {
                 ran.w.mon.cnt.inc("c16.unblock_checks");
                 let p = c.c.verif_probe();
+                // nothing stays queued for good either (datagrams that no longer fit after a
+                // black hole must be discarded, or everything behind them is stuck)
+                if p.dgram_outgoing.0 > 0 && !c.c.is_closed() && c.app.connected && black_hole_possible {
+                    msgs.push(format!("conn {ei}/{ch}: {} DATAGRAMs ({} bytes) still queued and not one has left in the last minute, long after the workload ended; current MTU {}", p.dgram_outgoing.0, p.dgram_outgoing.1, c.c.current_mtu()));
+                }
                 if c.app.dgram_blocked && p.dgram_outgoing.0 == 0 && !c.c.is_closed() && c.app.connected {
                     msgs.push(format!("conn {ei}/{ch}: send() returned Blocked, the outgoing queue has drained (send_buffer_space {}), but DatagramsUnblocked was never emitted", c.tcfg.dgram_send_buf));
                 }
